@@ -21,8 +21,9 @@ import (
 
 func init() {
 	register(&Prop{ID: "C11", Run: runC11, Procs: true, Replay: map[string]func(*mc.Ctx, json.RawMessage){
-		"subset": replayer(c11Eval),
-		"graph":  replayer(c11EvalGraph),
+		"subset":  replayer(c11Eval),
+		"graph":   replayer(c11EvalGraph),
+		"virtual": replayer(c11EvalVirtual),
 	}})
 }
 
@@ -358,4 +359,5 @@ func runC11(c *mc.Ctx) {
 	c.Sample("subset", cases[5])
 	c.Sample("subset", cases[len(cases)-1])
 	runC11Graphs(c)
+	runC11Virtual(c)
 }
